@@ -6,5 +6,6 @@ CONSTANTS
   DbIds = {"com", "x.com", "w.y.com", "a.x.com", "io"}
   EmitOn = TRUE
   ImplOnly = TRUE
+  ImplNegAgain = FALSE
 VIEW GraphView
 INVARIANTS TypeOK CacheTransparent ImplAdmissible
